@@ -1,11 +1,12 @@
 (* Properties/C14.v -- C14: M-index is a frame-independent texture-strength scalar in [0, 1].
    Only statements; each is closed by `exact` of a lemma of Proofs_mindex.v.
    The quaternion product of the model carries a variant (Dropped = what the source computes,
-   Hamilton = the quaternion product); range, permutation invariance and the batched variant
-   are proved for BOTH variants, frame / symmetry invariance for Hamilton with proper
+   Hamilton = the quaternion product); range, permutation invariance, the single-orientation value and the batched
+   variant are proved for BOTH variants, frame / symmetry invariance for Hamilton with proper
    operators only (they are false of the Dropped variant: Findings/C14_quat.v). *)
 From Coq Require Import Reals ZArith List Permutation.
-From PV Require Import Num NumR Model_mindex Proofs_mindex Proofs_mindex_mass.
+From PV Require Import Num NumR Model_mindex Proofs_mindex Proofs_mindex_mass
+  Proofs_mindex_single Proofs_mindex_single_thm Proofs_mindex_batched.
 Import ListNotations.
 Open Scope R_scope.
 
@@ -100,16 +101,63 @@ Theorem C14_ortho_ops_not_group :
       apply_op Hamilton s (apply_op Hamilton t q) <> qneg (apply_op Hamilton u q).
 Proof. exact ortho_ops_not_group. Qed.
 
-(* ---- batched variant (model of imap as an order-preserving map) ---- *)
-Theorem C14_batched_is_map : forall (as_quat : list R -> Q4) v s stack ms,
-  @misorientation_indices NumR as_quat v s stack = Ok ms ->
-  Forall2 (fun os m => @misorientation_index NumR as_quat v s os = Ok m) stack ms.
-Proof. exact batched_is_map. Qed.
+(* ---- single-orientation texture (both variants) ---- *)
+(* the identity operator is in every system's list and fixes the quaternion under both
+   products; hence the misorientation angle of a unit quaternion with itself is 0 *)
+Theorem C14_pair_angle_self : forall v s (q : Q4), 1 <= qnorm2 q ->
+  In (@Rot NumR qid) (@symmetry_operations NumR s) /\
+  @apply_op NumR v (Rot qid) q = q /\
+  @pair_angle NumR v (symmetry_operations s) q q = 0.
+Proof. exact pair_angle_self_system. Qed.
 
-Theorem C14_batched_error : forall (as_quat : list R -> Q4) v s stack e,
+(* all grains equal (at least two), unit quaternion from the oracle: all pair angles are 0, the
+   observed density is the unit mass in bin 0 and M = (1 + T) / 2 - th_0 -- ANY lattice system
+   whose theoretical density is defined, non-negative, with first bin <= 1 *)
+Theorem C14_mindex_single_closed_form : forall (as_quat : list R -> Q4) v s (os : list (list R)) o th,
+  (2 <= length os)%nat -> Forall (eq o) os -> qnorm2 (as_quat o) = 1 ->
+  @theory NumR s = Ok th -> Forall (Rle 0) th -> nth 0 th 0 <= 1 ->
+  Forall (eq 0) (@angles NumR v s (map as_quat os)) /\
+  @misorientation_index NumR as_quat v s os = Ok ((1 + rsum th) / 2 - nth 0 th 0).
+Proof. exact mindex_single_closed. Qed.
+
+(* "close to 1 for a single-orientation texture": |M - 1| <= 1e-4 for the three systems whose
+   density has mass 1 (interval arithmetic on the closed form; the code gives 0.9999996,
+   0.9999992, 1.0000493) *)
+Theorem C14_mindex_single : forall (as_quat : list R -> Q4) v s (os : list (list R)) o,
+  good_mass s -> (2 <= length os)%nat -> Forall (eq o) os -> qnorm2 (as_quat o) = 1 ->
+  Forall (eq 0) (@angles NumR v s (map as_quat os)) /\
+  exists m, @misorientation_index NumR as_quat v s os = Ok m /\ Rabs (m - 1) <= 1 / 10000.
+Proof. exact mindex_single. Qed.
+
+(* ---- batched variant (model of imap over the stack) ---- *)
+(* Ok exactly when every snapshot is Ok; then the result has the length of the stack and
+   position k holds the value of snapshot k *)
+Theorem C14_batched_iff : forall (as_quat : list R -> Q4) v s stack ms,
+  @misorientation_indices NumR as_quat v s stack = Ok ms <->
+  Forall2 (fun os m => @misorientation_index NumR as_quat v s os = Ok m) stack ms.
+Proof. exact batched_iff. Qed.
+
+Theorem C14_batched_positional : forall (as_quat : list R -> Q4) v s stack ms,
+  @misorientation_indices NumR as_quat v s stack = Ok ms ->
+  length ms = length stack /\
+  forall k, (k < length stack)%nat ->
+    @misorientation_index NumR as_quat v s (nth k stack []) = Ok (nth k ms 0).
+Proof. exact batched_nth. Qed.
+
+(* cutting the stack into chunks that are processed separately and concatenating the chunk
+   results in chunk order gives the result of the whole stack (values or error) *)
+Theorem C14_batched_chunks : forall (as_quat : list R -> Q4) v s (chunks : list (list (list (list R)))),
+  @misorientation_indices NumR as_quat v s (concat chunks) =
+  fold_right (fun c acc => bind_app (@misorientation_indices NumR as_quat v s c) acc) (Ok []) chunks.
+Proof. exact batched_chunks. Qed.
+
+(* an error is the error of the first failing snapshot *)
+Theorem C14_batched_first_error : forall (as_quat : list R -> Q4) v s stack e,
   @misorientation_indices NumR as_quat v s stack = Err e ->
-  exists os, In os stack /\ @misorientation_index NumR as_quat v s os = Err e.
-Proof. exact batched_error. Qed.
+  exists k, (k < length stack)%nat /\
+    @misorientation_index NumR as_quat v s (nth k stack []) = Err e /\
+    forall j, (j < k)%nat -> exists m, @misorientation_index NumR as_quat v s (nth j stack []) = Ok m.
+Proof. exact batched_first_error. Qed.
 
 (* non-vacuity: a closed proper operator set (the four-group {1, i, j, k}), a unit r *)
 Example C14_nonvacuous :
@@ -117,3 +165,8 @@ Example C14_nonvacuous :
   In (@Rot NumR (1, 0, 0, 0)) d2_ops /\ qnorm2 (1 / 2, 1 / 2, 1 / 2, 1 / 2) = 1 /\
   (0 < zsum (@hist_counts NumR 180 (30%R :: nil)))%Z.
 Proof. exact nonvacuous_mindex. Qed.
+
+Example C14_single_nonvacuous :
+  good_mass Orthorhombic /\ (2 <= length [[1; 0; 0; 0; 1; 0; 0; 0; 1]; [1; 0; 0; 0; 1; 0; 0; 0; 1]])%nat /\
+  qnorm2 (0, 0, 0, 1) = 1.
+Proof. exact single_nonvacuous. Qed.
